@@ -1,5 +1,5 @@
 """C17 — scoped settings restore exactly and never leak across threads."""
-import copy, json, os, sys, threading, zlib
+import copy, json, os, sys, threading, time, zlib
 from harness.lib import tr as trlib
 from harness.translators import scope_defs
 
@@ -16,7 +16,8 @@ META = dict(
                'interleavings) + scope definitions regenerated from the source by a fail-closed Python-subset-to-Gallina translator + differential correspondence '
                '(sweep, random nested programs, real threads under a deterministic event scheduler) + direct restore/effective/no-leak oracle'),
     design_ref='DESIGN.md §5 C17',
-    level_text=('Theorems (any well-nested program over all 19 managers, any depth, normal and exceptional exits, failing enters): the state after equals the state before '
+    level_text=('Refinement theorem: for every program the model of the code yields exactly the observations and exception behaviour of a store-free specification in which scopes are lexical and getters follow the documented nesting rules. '
+                'Theorems (any well-nested program over all 19 managers, any depth, normal and exceptional exits, failing enters): the state after equals the state before '
                 '(syntactically for the value scopes, observationally where thread_local_pop / contextual_scope leave an empty container behind); inside a scope the getter returns the '
                 'documented nesting rule; for every interleaving of machine steps of any number of threads a thread that uses thread-local managers behaves exactly as when run alone; '
                 'only dynamic_evaluate(per_thread=False) and load_types_for_deserialization touch the process-wide store.'),
@@ -1183,6 +1184,7 @@ def run(ctx):
   # ---- direct oracle on every case ---------------------------------------------------------------------------
   oracle_evals = 0
   probe_evals = 0
+  skipped_for_time = 0
   def shrink_threads(case, sig):
     """greedy: drop schedule entries, then shrink each thread's program, while the same signature is still hit"""
     ps, sched = [p for p in case['progs']], list(case['sched'])
@@ -1224,6 +1226,9 @@ def run(ctx):
     if key in done:
       continue
     done.add(key)
+    if not ctx.thorough and d['kind'].startswith('random') and time.time() - ctx.t0 > 85:
+      skipped_for_time += 1          # wall-clock budget of the quick tier on a busy machine: sweeps and corpus always run
+      continue
     oracle_evals += 1
     # the behavioural probes cost ~3 ms per scope: on every sweep / corpus program, on a quarter of the random ones (all in the thorough tier)
     probes = ctx.thorough or not d['kind'].startswith('random') or (zlib.crc32(key.encode()) % 4 == 0)
@@ -1256,6 +1261,7 @@ def run(ctx):
           for sig, what in oracle_threads(real2, ps, sched, impl_threads(real2, ps, sched)):
             ctx.hit(sig, what, dict(kind='threads', progs=ps, sched=sched, flags=[f['scope'] for f in info2['flags']]))
   ctx.extra['oracle_evaluations'] = oracle_evals
+  ctx.extra['oracle_evaluations_skipped_for_wall_clock_budget'] = skipped_for_time
   ctx.extra['oracle_evaluations_with_behavioural_probes'] = probe_evals
 
   # ---- targeted search when something no longer checks and nothing failed yet --------------------------------------
